@@ -267,7 +267,7 @@ def main():
         jobs = [{'seed': 0, 'replay': rp['replay'], 'n_random': 2, 'every_cut_limit': 0, 'n_trunc': 2}]
         res = par.run_jobs(target, jobs, 1)
     else:
-        total = int((6400 if check.thorough else 160) * check.scale)
+        total = int((6400 if check.thorough else 480) * check.scale)
         nj = check.jobs * (4 if check.thorough else 1)
         jobs = [{'seed': check.seed * 1000003 + i, 'n': max(1, total // nj), 'n_random': 4 if check.thorough else 2,
                  'every_cut_limit': 700 if check.thorough else 90, 'n_trunc': 6 if check.thorough else 2}
